@@ -1,5 +1,6 @@
 import TensorModel.Proofs.ShapeAlg
 import TensorModel.Proofs.CoreEq
+import TensorModel.Proofs.Inject
 /-!
   C13 — shape algebra agrees with execution; reshape; metadata invariant.
   Property theorems only; helper lemmas live in `TensorModel/Proofs/ShapeAlg.lean`.
@@ -102,6 +103,26 @@ example : Covers { shape := [3, 1], strides := [3, 1] } 7 := by
   refine ⟨rfl, ?_, ?_, by decide⟩ <;> intro x hx <;> simp at hx <;> omega
 example : (match ({ shape := [3, 1], strides := [3, 1] } : AP).T [] with
   | .ok (.ok tap _) => tap.shape == [1, 3] && tap.strides == [1, 3] | _ => false) = true := by decide
+
+/-! ## distinct positions: different in-box coordinates address different cells -/
+
+/-- default row-major strides address distinct cells -/
+theorem default_distinct (shape : Shape) : InjectivePat shape (calcStrides shape) :=
+  fun c c' hc hc' h => rowRank_inj' shape c c' hc hc' h
+
+/-- default column-major strides (one per axis) address distinct cells -/
+theorem default_col_distinct (shape : Shape) : InjectivePat shape (prefixProds 1 shape) :=
+  fun c c' hc hc' h => colRank_inj' shape c c' hc hc' h
+
+/-- **Transposition preserves distinctness**: permuting shape and strides by any permutation of the axes (what
+    `AP.T` does, `apT_gather`) keeps distinct coordinates on distinct cells. Any rank. -/
+theorem T_distinct (p : List Int) (shape strides : List Int) (hp : isPerm p shape.length = true)
+    (hl : strides.length = shape.length) (h : InjectivePat shape strides) :
+    InjectivePat (gatherI p shape) (gatherI p strides) :=
+  gather_injective hp shape strides rfl hl h
+
+example : InjectivePat (gatherI [1, 0] [2, 3]) (gatherI [1, 0] (calcStrides [2, 3])) :=
+  T_distinct [1, 0] [2, 3] _ (by decide) (by decide) (default_distinct [2, 3])
 
 /-! ## the source of the shape calculator
 
